@@ -4,7 +4,7 @@ set -e
 cd "$(dirname "$0")"
 export GOFLAGS=-mod=mod GOPROXY=off GOSUMDB=off GOTOOLCHAIN=local
 mkdir -p build evidence replays
-if [ -x translate/run.py ]; then python3 translate/run.py all; fi
+python3 translate/run.py all
 cd coq
 coq_makefile -f _CoqProject -o Makefile >/dev/null
 timeout 3000 make -j16 >../build/coq-setup.log 2>&1 || { tail -30 ../build/coq-setup.log; exit 1; }
